@@ -165,6 +165,7 @@ func ProfileFor(prop, tier string, seed uint64) *Profile {
 	case "C16":
 		pf.CacheCaps = []int{12, 14, 16, 20, 32, 64, 128, 256}
 		pf.ForceFlush = true
+		pf.FlushMargins = []int{1, 1, 2, 2, 3, 4, 6, 8, 10, 10}
 		pf.Stmts = [2]int{30, 120}
 		pf.WRaw = 12
 		pf.WSelect = 8
